@@ -14,7 +14,8 @@ META = {
     "level_note": "Proved for the emitter of ${} expressions and for visitExpression (the line written is __M_writer(<pipeline over D, P and the local filters>) whichever of the three are empty); the filter= sites (defs, blocks, <%text>, buffer_filters) reuse the same function and are covered by the bounded site grid only. The expression scanner (parse_until_text) is outside the verifier's reach (regex cascade over a string with three counters): bounded spelling grid + the regex ambiguity obligation. Assumed: DEFAULT_ESCAPES is not mutated at run time; re.match as uninterpreted predicate/group functions whose meaning for the two literals is the C02.regex obligation (enumeration, bounded).",
 }
 
-KEYS = ["mako.codegen:_GenerateRenderMethod.create_filter_callable", "mako.codegen:_GenerateRenderMethod.visitExpression"]
+KEYS = ["mako.codegen:_GenerateRenderMethod.create_filter_callable", "mako.codegen:_GenerateRenderMethod.visitExpression",
+        "mako.codegen:_GenerateRenderMethod.write_def_finish"]
 
 
 def regex_literals():
